@@ -1,6 +1,7 @@
 // C15 - DavidsonSymEigsSolver: Successful means true residuals below tol with unit, orthonormal, rule-ordered pairs; never NaN, whatever the outcome.
 #define VF_MAIN
 #include "common/framework.hpp"
+#include <cstring>
 #include "common/oracle.hpp"
 #include "common/gen.hpp"
 #include "common/solvers.hpp"
@@ -105,6 +106,29 @@ static void run(vf::Ctx& ctx, const MatXd& A, Op& op, const char* opname, int cl
         }
     }
     catch (const std::exception& e) { outcome = std::string("exception:") + typeid(e).name(); }
+    // history (C06 for this solver): a second compute() with other arguments on the same object must equal a fresh solver's result bit for bit
+    if (outcome == "ok" && gk == 0)
+    {
+        const SortRule rule2 = DRULES[r.range(0, 3)];
+        const long maxit2 = r.pick(std::vector<long>{1, 5, 20, 100});
+        const T tol2 = r.pick(std::vector<T>{1e-3, 1e-6, 1e-9});
+        try
+        {
+            const long r1 = (long) es.compute(rule2, maxit2, tol2);
+            Spectra::DavidsonSymEigsSolver<Op> fresh(op, nev, ninit, nmax);
+            const long r2 = (long) fresh.compute(rule2, maxit2, tol2);
+            Eigen::VectorXd e1 = es.eigenvalues(), e2 = fresh.eigenvalues();
+            MatXd X1 = es.eigenvectors(), X2 = fresh.eigenvectors();
+            const bool same = r1 == r2 && es.info() == fresh.info() && es.num_iterations() == fresh.num_iterations() && e1.size() == e2.size() && X1.size() == X2.size() &&
+                std::memcmp(e1.data(), e2.data(), sizeof(double) * e1.size()) == 0 && std::memcmp(X1.data(), X2.data(), sizeof(double) * X1.size()) == 0;
+            ctx.count("fresh_vs_reused_comparisons");
+            if (!same) ctx.violation(tag.empty() ? std::string("DavidsonSymEigsSolver/second-compute-differs-from-fresh-solver") : tag + "/second-compute-differs-from-fresh-solver",
+                                     info().kv("second_rule", rule_name(rule2)).kv("second_maxit", maxit2).kv("returned_reused", r1).kv("returned_fresh", r2).str());
+            // restore the state the rest of the oracle judges
+            ret = (long) es.compute(rule, maxit, tol);
+        }
+        catch (const std::exception& e) { outcome = std::string("exception:") + typeid(e).name(); }
+    }
     ctx.count("evals");
     ctx.count(std::string("matrix/") + MCLS[cls]);
     ctx.count(std::string("guess/") + GUESS[gk]);
